@@ -485,6 +485,7 @@ def run(ck, F):
     for f in sorted(F.fn.values(), key=lambda f: f['id']):
         if not (f.get('loc') or '').startswith(('src/', 'include/ipr')):
             continue
+        addr_of = {id(_strip(n_.get('e'))) for n_ in walk(f.get('body')) if n_.get('k') == 'unop' and n_.get('op') == '&'}
         for n, guards in _sites(f.get('body'), []):
             base = idx = None
             if n.get('k') == 'index':
@@ -510,6 +511,8 @@ def run(ck, F):
             if 'cv' in i or 'cv' in i0:
                 v = int(i.get('cv', i0.get('cv')))
                 ok, why = 0 <= v < N, f'constant {v}'
+                if v == N and id(n) in addr_of:
+                    ok, why = True, 'the one-past-the-end position, whose address only is taken'
             else:
                 en = _enum_of(i)
                 if en is not None:
